@@ -716,19 +716,23 @@ def main():
     c.cov["rule"] = ("typed generator of expression trees (depth <= 5) over Range/DiscreteRange/Normal/TruncatedNormal leaves "
                      "(shared, nested bounds), + - * / // % ** unary ops on both sides incl. every identity shortcut, tuple/list "
                      "displays, concatenation, indexing by constant and random ints, Uniform multiplexers, lifted max/min/hypot "
-                     "with star-unpacking, vectors with attribute access and methods; class defaults/specifier arguments over "
-                     "self.<prop>; a case is non-trivial when the compiled value is random and at least one sample was compared "
+                     "with star-unpacking, vectors with attribute access and methods; directed support cases: + - * / over every sign "
+                     "pattern (negative / touching 0 / straddling / positive) of both operands x constant / Range / DiscreteRange / "
+                     "TruncatedNormal / nested / derived operands, each also evaluated at the corner values of its leaves; class "
+                     "defaults/specifier arguments over self.<prop>; programs with list / tuple / namedtuple / dict literals and "
+                     "distribution arguments mixing random and lazily evaluated elements (self.<prop>, vector-field-relative values) "
+                     "consumed by lifted functions observing type and value; a case is non-trivial when the compiled value is random and at least one sample was compared "
                      "with plain Python's eval; distinct by hash of the expression text")
     common.ensure_parser()
     if not c.proofs():
         c.finish()
     exe = common.build_ocaml(PID)
     quick = c.tier == "quick"
-    ntrees = 360 if quick else 12000
-    nsign = 240 if quick else 6000
+    ntrees = 360 if quick else 8000
+    nsign = 240 if quick else 3000
     nsamples = 10 if quick else 40
     ndelayed = 40 if quick else 600
-    nlazy = 60 if quick else 1200
+    nlazy = 60 if quick else 600
     rng = c.rng
     cases = []
     for i in range(ntrees):
@@ -948,6 +952,8 @@ def main():
         "are skipped for the model comparison when results differ, never for the Python oracle)",
         "extraction via ExtrOcamlBasic only; OCaml compiler; driver ocaml/c05/driver.ml",
         "the oracle is CPython's eval of the same expression text on the sampled leaves",
+        "corner samples: Range / TruncatedNormal / DiscreteRange leaves are set to their (closed) interval end points via "
+        "Samplable.sample(subsamples); the value must lie in supportInterval and equal Python's eval at those points",
         "model = hand-written Gallina (coq/C05/Expr.v) tied to the code by this differential run only",
     ]
     if os.environ.get("VERIF_DEBUG"):
